@@ -70,7 +70,8 @@ def gen(rng, prop=None):
         if kind in ("buy", "earn"):
             amt = rng.randint(1, 6) * U
             bal += amt
-            rows.append(["IN", 0, us(inst), off, rng.choice(["BUY", "BUY", "GIFT", "DONATE"]) if kind == "buy" else rng.choice(EARN), rng.randrange(4), price, amt])
+            fee = rng.choice([0, 0, 0, price * (amt // U) // 20, price * (amt // U) // 3]) if kind == "buy" else 0    # fiat fee: no influence on the ranking
+            rows.append(["IN", 0, us(inst), off, rng.choice(["BUY", "BUY", "GIFT", "DONATE"]) if kind == "buy" else rng.choice(EARN), rng.randrange(4), price, amt, fee])
         elif bal > 0:
             over = rng.random() < 0.03
             if kind == "sell":
@@ -117,7 +118,7 @@ def build(case):
     x = TransactionSet(CFG, "INTRA", a)
     for r in case["rows"]:
         if r[0] == "IN":
-            i.add_entry(InTransaction(CFG, ts_of(r[2], r[3]), a, *ACCTS[r[5]], r[4], dec(r[6]), dec(r[7]), fiat_fee=D("0"), row=r[1]))
+            i.add_entry(InTransaction(CFG, ts_of(r[2], r[3]), a, *ACCTS[r[5]], r[4], dec(r[6]), dec(r[7]), fiat_fee=dec(r[8]) if len(r) > 8 else D("0"), row=r[1]))
         elif r[0] == "OUT":
             o.add_entry(OutTransaction(CFG, ts_of(r[2], r[3]), a, *ACCTS[r[5]], r[4], dec(r[6]), dec(r[7]), dec(r[8]), row=r[1]))
         else:
@@ -141,7 +142,7 @@ def encode(case):
     L = ["CFG 365 1 - -"] + [f"SCHED {y} {m}" for y, m in case["sched"].items()]
     for r in case["rows"]:
         if r[0] == "IN":
-            L.append(f"IN {r[1]} {r[2]} {r[3]} {r[4].lower()} {r[5]} {r[6]} {r[7]} 0 - -")
+            L.append(f"IN {r[1]} {r[2]} {r[3]} {r[4].lower()} {r[5]} {r[6]} {r[7]} {r[8] if len(r) > 8 else 0} - -")
         elif r[0] == "OUT":
             L.append(f"OUT {r[1]} {r[2]} {r[3]} {r[4].lower()} {r[5]} {r[6]} {r[7]} {r[8]} - - -")
         else:
